@@ -235,7 +235,25 @@ fn delta_body(allow_empty: bool) {
 #[kani::stub(std::vec::Vec::<T>::with_capacity, stubs::with_capacity_stub)]
 #[kani::stub(std::vec::Vec::<T>::reserve, stubs::reserve_stub)]
 fn c15_agg_sparse_reads() {
-    let src = Mock::<usize, u32>::any(3);
+    agg_body(Mock::<usize, u32>::any(3));
+}
+/// Same with the source length fixed per harness (symbolic contents, mapping, ranges): the symbolic-length form
+/// needs more than 24 GB.
+#[kani::proof]
+#[kani::unwind(7)]
+#[kani::stub(std::vec::Vec::<T>::with_capacity, stubs::with_capacity_stub)]
+#[kani::stub(std::vec::Vec::<T>::reserve, stubs::reserve_stub)]
+fn c15_agg_sparse_n3() {
+    agg_body(Mock::<usize, u32>::new(kani::any(), 3));
+}
+#[kani::proof]
+#[kani::unwind(7)]
+#[kani::stub(std::vec::Vec::<T>::with_capacity, stubs::with_capacity_stub)]
+#[kani::stub(std::vec::Vec::<T>::reserve, stubs::reserve_stub)]
+fn c15_agg_sparse_n2() {
+    agg_body(Mock::<usize, u32>::new(kani::any(), 2));
+}
+fn agg_body(src: Mock<usize, u32>) {
     let d = src.data;
     let n = src.n();
     // first-index mapping: 3 groups, monotone, within 0..=n
@@ -266,6 +284,6 @@ fn c15_agg_sparse_reads() {
         assert!(got.v[k] == Some(expect(from + k)));
     }
     kani::cover!(mp[1] == mp[2] && mp[1] > 0 && k == 1, "empty group that is not at the source start");
-    kani::cover!(cnt == 3 && n == 3, "all groups");
+    kani::cover!(cnt == 3, "all groups");
     core::mem::forget((lz, mapping));
 }
